@@ -118,7 +118,7 @@ def run(ctx):
     ]
     ctx.lean(props=["Props.C13"], drivers=["drv_c13"])
     ctx.harness("./cmd/c13")
-    ctx.diff(area="log", driver="drv_c13", n={"quick": 40000, "thorough": 900000}, stateful=True,
+    ctx.diff(area="log", driver="drv_c13", n={"quick": 40000, "thorough": 600000}, stateful=True,
              trivial=lambda l, o: l.split(" ", 1)[0] in ("new", "mnew", "mode", "hold", "wg", "wa", "setlevel"),
              tagger=_tag, timeout=1500,
              theorem="C13.format_spec / one_write_per_record / derive_isolated / stack_lines_follow / "
@@ -128,7 +128,7 @@ def run(ctx):
                     label="errs.Recovery on its own: no panic escapes, the handler is called once with an error that leads "
                           "back to the panic value, for every kind of panic value and handler")
     if ctx.harness("./cmd/c13", name="race", race=True):
-        sched(ctx, {"quick": 1500, "thorough": 40000})
+        sched(ctx, {"quick": 1500, "thorough": 12000})
         ctx.impl_oracle("stress", {"quick": 40, "thorough": 600}, name="race", timeout=1500,
                         label="schedules: whole-record writes, per-goroutine order, sink error to its caller, "
                               "buffered never blocks / no tear / no duplicate (race build)",
